@@ -209,7 +209,7 @@ pub fn run(args: &Args) -> Report {
         }
     }
     rep.exhaustive = Some(!miri);
-    rep.floor("cache_kinds", rep.n_seen("cache_kinds"), if miri { 1 } else { 4 });
+    rep.floor_set("cache_kinds", if miri { 1 } else { 4 });
     rep.floor("protected_entries_checked", rep.get("protected_entries_checked"), if miri { 2 } else { 500 });
     rep.floor(
         "histories_load_gone_insert_poke",
